@@ -72,6 +72,9 @@ HOSTS = [
     ("example.com", "example.com"), ("www.example.com", ".example.com"), ("example.com", ".example.com"),
     ("evil-example.com", "example.com"), ("evil-example.com", ".example.com"), ("example.com.evil.org", "example.com"),
     ("example.com.evil.org", ".example.com"), ("notexample.com", ".example.com"), ("example.org", "example.com"), ("ample.com", "example.com"),
+    # the cookie domain occurs *inside* the host, preceded by a label: http.cookiejar.domain_match only looks for an occurrence (rfind)
+    ("www.example.com.evil.org", ".example.com"), ("www.example.com.evil.org", "example.com"), ("a.b.example.com", ".example.com"),
+    ("a.example.com", "example.com"), ("WWW.Example.COM", ".example.com"), ("www.example.com.", ".example.com"),
 ]
 PORTS = [(80, 80), (8080, 80)]
 PATHS = [
@@ -331,6 +334,8 @@ def check(ctx):
 
 
 MUTANTS = [
+    # reverse of the F-C54b fix (f0257d529)
+    Mutant("F-C54b-reverted-no-suffix-check", F, "    if not a.lower().endswith(b.lower().strip(\".\")):\n        return False\n", "", "R54.1"),
     Mutant("revert-fix-bare-startswith", F, "                        path_match(flow.request.path, path),", "                        flow.request.path.startswith(path),", "R54.1"),
     Mutant("path-match-without-boundary", F, "        return cookie_path.endswith(\"/\") or request_path[len(cookie_path)] == \"/\"", "        return True", "R54.1"),
     Mutant("port-not-compared", F, "                        flow.request.port == port,\n", "", "R54.1"),
